@@ -348,6 +348,19 @@ func jobC16(c *rt.Ctx) {
 			c.Violation(fmt.Sprintf("C16 double-base %s", class), fmt.Sprintf("[s1]P + [s2]B wrong for s1=%s s2=%s P=[%s]B+T_%d (negated unpack: %v)", s1, s2, p.k, p.t, neg),
 				map[string]interface{}{"s1": s1.String(), "s2": s2.String(), "P": ref.Hex(enc), "negated": neg, "expected": ref.Hex(want), "observed": ref.Hex(out[:])})
 		}
+		// the same call with the result written over the point argument (r == p1), as the group
+		// operations of this package are used elsewhere (Double(r, r), CofactorMultiply(&t, &t))
+		pin := P
+		DoubleScalarmultVartime(&pin, &pin, &m1, &m2)
+		var fin Ge25519
+		ProjectiveToExtended(&fin, &pin)
+		var outIn [32]byte
+		Pack(outIn[:], &fin)
+		c.Step(1)
+		if !bytes.Equal(outIn[:], want) {
+			c.Violation(fmt.Sprintf("C16 double-base in-place %s", class), fmt.Sprintf("DoubleScalarmultVartime(&P, &P, s1, s2) wrong for s1=%s s2=%s P=[%s]B+T_%d", s1, s2, p.k, p.t),
+				map[string]interface{}{"s1": s1.String(), "s2": s2.String(), "P": ref.Hex(enc), "expected": ref.Hex(want), "observed": ref.Hex(outIn[:])})
+		}
 	}
 	for pi, p := range P5 {
 		for i, s1 := range W5 {
@@ -374,13 +387,6 @@ func jobC16(c *rt.Ctx) {
 	// output parameters are fully overwritten: the result must not depend on what the output variable
 	// held before (VerifyBatch reuses its point and scalar slots from one chunk to the next)
 	c.Require("dirty-output")
-	dirty := func() Ge25519 {
-		var g Ge25519
-		junk := ref.BaseMul(big.NewInt(987654321)).Encode()
-		UnpackVartime(&g, junk)
-		Double(&g, &g)
-		return g
-	}
 	// (scalars are reduced mod L first: the multiplication takes reduced scalars, and the torsion
 	// component of the expected result depends on the reduced value)
 	for i, s1 := range []*big.Int{big.NewInt(0), big.NewInt(1), new(big.Int).Mod(a0, ref.L), badd(ref.L, -1), pow2(252)} {
@@ -397,8 +403,8 @@ func jobC16(c *rt.Ctx) {
 				modm.Expand(&m2, ref.ToLE(s2, 32))
 				P := dirty()
 				if !UnpackNegativeVartime(&P, enc) {
-					c.Fail("cannot unpack")
-					return
+					c.Violation("C16 dirty-output decode", fmt.Sprintf("UnpackNegativeVartime into a destination that already held a point refuses the valid encoding %x", enc), map[string]interface{}{"P": ref.Hex(enc)})
+					continue
 				}
 				var Pf Ge25519
 				UnpackNegativeVartime(&Pf, enc)
@@ -523,6 +529,12 @@ func jobC10(c *rt.Ctx) {
 		var P, N Ge25519
 		ok1 := UnpackVartime(&P, in)
 		ok2 := UnpackNegativeVartime(&N, in)
+		// ... and into destinations that already hold a point (VerifyBatch decodes every chunk into the
+		// same heap slots): same verdict, same point
+		Pd, Nd := dirty(), dirty()
+		if d1, d2 := UnpackVartime(&Pd, in), UnpackNegativeVartime(&Nd, in); d1 != ok1 || d2 != ok2 || (ok1 && (Pd != P || Nd != N)) {
+			c.Violation("C10 decode dirty-destination", fmt.Sprintf("decoding %x into a destination that already held a point gives a different verdict or point (fresh %v/%v, dirty %v/%v)", b, ok1, ok2, d1, d2), map[string]interface{}{"string": ref.Hex(b)})
+		}
 		c.Step(2)
 		rawy := ref.LE(b)
 		rawy.SetBit(rawy, 255, 0)
@@ -878,4 +890,14 @@ func atAlign(b []byte) []byte {
 	}
 	copy(buf[off:], b)
 	return buf[off : off+len(b)]
+}
+
+// dirty returns a valid point in non-normalised coordinates (Z != 1): what an output variable or a
+// reused slot holds after an earlier operation.
+func dirty() Ge25519 {
+	var g Ge25519
+	junk := ref.BaseMul(big.NewInt(987654321)).Encode()
+	UnpackVartime(&g, junk)
+	Double(&g, &g)
+	return g
 }
